@@ -23,6 +23,7 @@ mod vmgen;
 mod vmrun;
 mod c17;
 mod c15;
+mod c06;
 
 use std::path::PathBuf;
 
@@ -45,6 +46,7 @@ fn main() {
     if cmd == "dump-stdlib" { print!("{}", modgen::dump_stdlib()); return; }
     if cmd == "c01-obs" { c01::obs_child(&argv[2], argv.get(3).map(|s| s.as_str()).unwrap_or("")); return; }
     if cmd == "c01-case" { c01::replay(&argv[2]); return; }
+    if cmd == "c06-case" { c06::replay(&argv[2], argv.get(3).map(|s| s.as_str())); return; }
     if cmd == "gcprobe" { gcprobe::run(&argv[2]); return; }
     if cmd == "probe" { if argv[2] == "handles" { probes::handles(); } else if argv[2] == "c02-guard-children" { probes::guard_children(); } else if argv[2] == "closure-labels" { probes::closure_labels(); } else { probes::run(&argv[2]); } return; }
     let mut a = Args { prop: argv[2].clone(), seed: 1, n: 300, tier: "quick".into(), out: PathBuf::from("work") };
@@ -77,6 +79,7 @@ fn main() {
         ("replay", "VM") => vmrun::replay(&a),
         ("gen", "C17") => c17::gen(&a),
         ("gen", "C15") => c15::gen(&a),
+        ("gen", "C06") => c06::gen(&a),
         _ => { eprintln!("unknown command/property"); std::process::exit(2); }
     }
 }
